@@ -395,6 +395,58 @@ func c03FlushMeets(ctx *core.Ctx, dotu, flushop bool) core.Result {
 			}
 		}
 	}
+	// the other way round: the answer of the named request is parked inside Respond while the Tflush runs as far as it
+	// can; until its Rflush has been sent the flushed tag is outstanding, afterwards it is not: the reply to the
+	// request may not follow the Rflush
+	for _, tp := range []string{"respond.enter", "respond.claimed", "respond.posted"} {
+		for rep := 0; rep < 3 && len(res.Violations) < 3; rep++ {
+			ctx.Beat()
+			tag++
+			target := &wire.Msg{Type: wire.Tstat, Fid: 1, Tag: tag}
+			plan := script.NewPlan()
+			s.Ops.SetPlan(c.ID, target.Tag, plan)
+			s.Ops.SetFlushMode(c.ID, target.Tag, "ignore")
+			hT := s.Ctl.HoldAt(tp, c.ID, int(target.Tag), sched.AnyTag, 20*time.Second)
+			n0 := len(c.All())
+			_ = c.Send(target)
+			if !hT.WaitReached(2 * time.Second) {
+				hT.Release()
+				c.WaitTag(target.Tag, W)
+				continue
+			}
+			tag++
+			flush := &wire.Msg{Type: wire.Tflush, Oldtag: target.Tag, Tag: tag}
+			_ = c.Send(flush)
+			s.Ctl.WaitPassed("flush.decided", c.ID, int(flush.Tag), 1, 300*time.Millisecond)
+			time.Sleep(time.Millisecond)
+			hT.Release()
+			res.Evals++
+			_, e1 := c.WaitTag(target.Tag, W)
+			_, e2 := c.WaitTag(flush.Tag, W)
+			c.Quiesce(W)
+			det := map[string]interface{}{"target_parked_at": tp, "flushop": flushop, "dotu": dotu}
+			if e1 != nil || e2 != nil {
+				res.Violate("C03;missing-reply;flush-meets;target-parked;"+tp, "a request whose answer was inside Respond when a Tflush of it arrived, or that Tflush, got no reply", det)
+				continue
+			}
+			posT, posF := -1, -1
+			for i, r := range c.All()[n0:] {
+				if r.Msg == nil {
+					continue
+				}
+				if r.Msg.Tag == target.Tag && posT < 0 {
+					posT = i
+				}
+				if r.Msg.Tag == flush.Tag && posF < 0 {
+					posF = i
+				}
+			}
+			if posT > posF {
+				res.Violate("C03;reply-for-tag-no-longer-outstanding;"+tp, fmt.Sprintf("the reply to tag %d was sent after the Rflush that ended that tag", target.Tag), det)
+			}
+			res.Sig(fmt.Sprintf("flush-meets-parked-target|%s|%v|%v", tp, flushop, dotu))
+		}
+	}
 	res.Sample(map[string]interface{}{"scenario": "Tflush parked at a point of Srv.flush while the request it names is answered", "flusher_points": fpoints, "target_points": tpoints})
 	return res
 }
